@@ -97,7 +97,7 @@ def confirm(pid, letter, src):
     dst = os.path.join(HERE, 'seeded', sid)
     os.makedirs(dst, exist_ok=True)
     for f in ('patch.diff', 'demo.rs', 'README.md'):
-        if os.path.exists(os.path.join(src, f)):
+        if os.path.exists(os.path.join(src, f)) and os.path.abspath(src) != os.path.abspath(dst):
             shutil.copy(os.path.join(src, f), os.path.join(dst, f))
     old = {}
     mp = os.path.join(dst, 'meta.json')
